@@ -2003,6 +2003,7 @@ func (h *handler) getPartitionLog(ctx context.Context, topic string, partition i
 
 	// Requests for other partitions proceed in parallel; only one goroutine
 	// per partition does the actual initialization.
+	ensured := false
 	for {
 		key := fmt.Sprintf("%s/%d", topic, partition)
 		result, err, _ := h.logInit.Do(key, func() (interface{}, error) {
@@ -2047,10 +2048,14 @@ func (h *handler) getPartitionLog(ctx context.Context, topic string, partition i
 			return plog, nil
 		})
 		if err != nil {
-			if errors.Is(err, metadata.ErrUnknownTopic) && h.autoCreateTopics {
+			// Auto-create at most once: if the topic already exists but does not
+			// have this partition, ensureTopic succeeds without changing anything
+			// and retrying again would spin forever.
+			if errors.Is(err, metadata.ErrUnknownTopic) && h.autoCreateTopics && !ensured {
 				if err := h.ensureTopic(ctx, topic, partition); err != nil {
 					return nil, err
 				}
+				ensured = true
 				continue
 			}
 			return nil, err
